@@ -53,6 +53,7 @@ type hdir struct {
 	di    directive.Instance
 	ref   directive.Reference
 	early map[int]bool // per link index: its hash had never been on this node's wire of that link when it was added
+	late  map[int]bool // per link index: a stream for its hash had already been resolved on this node when it was added
 	n     *hnode
 }
 
@@ -96,6 +97,11 @@ type hlink struct {
 	ml   [2]*fakeML
 	end  [2]*hnode
 	up   bool
+	// dead: the link was removed on both ends (a re-established link is a NEW hlink — a new link of
+	// the model, sharing both ends' directive sets — with the same uuid)
+	dead  bool
+	slot  int       // which link of the scenario this is an incarnation of
+	valID [2]uint32 // the link values on the two buses
 
 	ctrl     *pipe
 	ctrlFrom int
@@ -128,6 +134,10 @@ type hubScen struct {
 	poolS   [][]dirSpec
 	script  []string
 	steps   int
+	// share[j] = i < j: link j ends at the SAME spoke node (one controller, one bus) as link i —
+	// parallel links between two nodes; -1 / absent: its own node
+	share []int
+	downs bool // random schedule: links also go down and come up again
 }
 
 func (e *engine) newHubNode(hw *hubWorld, name string, p peer.ID, maxH uint32) (*hnode, error) {
@@ -135,7 +145,7 @@ func (e *engine) newHubNode(hw *hubWorld, name string, p peer.ID, maxH uint32) (
 	if err != nil {
 		return nil, err
 	}
-	n := &hnode{hw: hw, name: name, peer: p, tb: tb, maxH: maxH, dirs: map[int]*hdir{}, gone: map[int]*hdir{},
+	n := &hnode{hw: hw, name: name, peer: p, tb: tb, maxH: effMax(maxH), dirs: map[int]*hdir{}, gone: map[int]*hdir{},
 		valStream: map[link_solicit.SolicitMountedStream]skey{}, valTaken: map[link_solicit.SolicitMountedStream]int{},
 		accepted: map[[2]any]bool{}}
 	n.lc = &linkCtrl{rhs: map[peer.ID]directive.ResolverHandler{}}
@@ -163,33 +173,54 @@ func (e *engine) newHubWorld(sc hubScen) (*hubWorld, error) {
 	}
 	hw.hub = hub
 	for j, sp := range sc.spokes {
-		sn, err := e.newHubNode(hw, fmt.Sprintf("S%d", j), sp, sc.maxS[j])
-		if err != nil {
-			cancel()
-			return nil, err
+		var sn *hnode
+		if j < len(sc.share) && sc.share[j] >= 0 && sc.share[j] < j {
+			sn = hw.links[sc.share[j]].end[1]
+		} else {
+			var err error
+			sn, err = e.newHubNode(hw, fmt.Sprintf("S%d", j), sp, sc.maxS[j])
+			if err != nil {
+				cancel()
+				return nil, err
+			}
 		}
-		l := &hlink{j: j, uuid: 7000 + uint64(j)*10, end: [2]*hnode{hub, sn}, ctrlFrom: -1}
-		l.ml[0] = &fakeML{uuid: l.uuid, tpt: sc.tptH[j], local: sc.hubPeer, remote: sp, open: hw.onOpen}
-		l.ml[1] = &fakeML{uuid: l.uuid, tpt: sc.tptS[j], local: sp, remote: sc.hubPeer, open: hw.onOpen}
-		hw.byML[l.ml[0]] = [2]int{j, 0}
-		hw.byML[l.ml[1]] = [2]int{j, 1}
-		hw.links = append(hw.links, l)
+		hw.newLink(j, 7000+uint64(j)*10, sn, sc.tptH[j], sc.tptS[j])
 	}
 	return hw, nil
+}
+
+// newLink appends a link (or a new incarnation of link `slot`) between the hub and spoke node sn.
+func (hw *hubWorld) newLink(slot int, uuid uint64, sn *hnode, tptH, tptS uint64) *hlink {
+	j := len(hw.links)
+	l := &hlink{j: j, slot: slot, uuid: uuid, end: [2]*hnode{hw.hub, sn}, ctrlFrom: -1}
+	l.ml[0] = &fakeML{uuid: uuid, tpt: tptH, rtpt: tptS, local: hw.hub.peer, remote: sn.peer, open: hw.onOpen}
+	l.ml[1] = &fakeML{uuid: uuid, tpt: tptS, rtpt: tptH, local: sn.peer, remote: hw.hub.peer, open: hw.onOpen}
+	hw.mtx.Lock()
+	hw.byML[l.ml[0]] = [2]int{j, 0}
+	hw.byML[l.ml[1]] = [2]int{j, 1}
+	hw.links = append(hw.links, l)
+	hw.mtx.Unlock()
+	return l
 }
 
 func (hw *hubWorld) close() {
 	hw.stop()
 	hw.hub.tb.Release()
+	done := map[*hnode]bool{}
 	for _, l := range hw.links {
-		l.end[1].tb.Release()
+		if !done[l.end[1]] {
+			done[l.end[1]] = true
+			l.end[1].tb.Release()
+		}
 	}
 }
 
 // onOpen is OpenMountedStream of every fake link end of the hub world.
 func (hw *hubWorld) onOpen(ctx context.Context, f *fakeML, pid protocol.ID) (link.MountedStream, error) {
+	hw.mtx.Lock()
 	k := hw.byML[f]
 	l, side := hw.links[k[0]], k[1]
+	hw.mtx.Unlock()
 	if pid == link_solicit_controller.ControlProtocolID {
 		p := newPipe(true, -1)
 		p.link = l.j
@@ -214,6 +245,20 @@ func (hw *hubWorld) onOpen(ctx context.Context, f *fakeML, pid protocol.ID) (lin
 	case ms := <-r.release:
 		return ms, nil
 	case <-ctx.Done():
+		// the caller gave up (its link was removed): the request is withdrawn
+		hw.mtx.Lock()
+		for i, q := range l.reqs {
+			if q == r {
+				l.reqs = append(l.reqs[:i], l.reqs[i+1:]...)
+				break
+			}
+		}
+		hw.mtx.Unlock()
+		select {
+		case ms := <-r.release: // released at the same moment
+			return ms, nil
+		default:
+		}
 		return nil, ctx.Err()
 	case <-hw.ctx.Done():
 		return nil, hw.ctx.Err()
@@ -246,18 +291,19 @@ func (hw *hubWorld) dispatch(l *hlink, side int, pid protocol.ID, end *pipeEnd) 
 	return "ok"
 }
 
-func (n *hnode) addLinkValue(ml *fakeML) error {
+func (n *hnode) addLinkValue(ml *fakeML) (uint32, error) {
 	if _, _, err := n.tb.Bus.AddDirective(link.NewEstablishLinkWithPeer("", ml.remote), nil); err != nil {
-		return err
+		return 0, err
 	}
 	var rh directive.ResolverHandler
 	if !waitUntil(func() bool { rh = n.lc.handler(ml.remote); return rh != nil }) {
-		return errors.New("EstablishLinkWithPeer resolver did not start")
+		return 0, errors.New("EstablishLinkWithPeer resolver did not start")
 	}
-	if _, ok := rh.AddValue(link.MountedLink(ml)); !ok {
-		return errors.New("link value refused")
+	id, ok := rh.AddValue(link.MountedLink(ml))
+	if !ok {
+		return 0, errors.New("link value refused")
 	}
-	return nil
+	return id, nil
 }
 
 // ---------------------------------------------------------------------------------------------
@@ -529,11 +575,20 @@ func (hw *hubWorld) observeLink(l *hlink) string {
 // ---------------------------------------------------------------------------------------------
 // runner
 
+// hop is one entry of the history. A directive change on a spoke NODE is a change of side B of
+// every link that ends at that node — including incarnations of a link that come up later (their
+// model state starts from the node's whole directive history): rendered when the model is asked.
+type hop struct {
+	s string
+	n *hnode // non-nil: spoke directive change "aB:…" / "rB:…", to be prefixed with every link of n
+}
+
 type hubRunner struct {
 	e      *engine
 	hw     *hubWorld
 	sc     hubScen
-	ops    []string
+	ops    []hop
+	cur    []int // slot -> index of its current incarnation in hw.links
 	byPool map[string]int // "H:k" / "S<j>:k" -> present directive id
 	kvs    []map[string]string
 	q      bool
@@ -543,14 +598,32 @@ type hubRunner struct {
 	ends   map[[2]int]bool
 }
 
-func (e *engine) queryHub(sc hubScen, ops []string) (line, ans string) {
+func (r *hubRunner) render() []string {
+	var out []string
+	for _, o := range r.ops {
+		if o.n == nil {
+			out = append(out, o.s)
+			continue
+		}
+		for _, l := range r.hw.links {
+			if l.end[1] == o.n {
+				out = append(out, fmt.Sprintf("L%d.%s", l.j, o.s))
+			}
+		}
+	}
+	return out
+}
+
+func (r *hubRunner) op(s string) { r.ops = append(r.ops, hop{s: s}) }
+
+func (e *engine) queryHub(hw *hubWorld, ops []string) (line, ans string) {
 	opl := "_"
 	if len(ops) > 0 {
 		opl = strings.Join(ops, ",")
 	}
 	var ls []string
-	for j, sp := range sc.spokes {
-		ls = append(ls, fmt.Sprintf("%s:%s:%d:%d:%d:%d", lib.Hex([]byte(sc.hubPeer)), lib.Hex([]byte(sp)), sc.tptH[j], sc.tptS[j], sc.maxHub, sc.maxS[j]))
+	for _, l := range hw.links {
+		ls = append(ls, fmt.Sprintf("%s:%s:%d:%d:%d:%d", lib.Hex([]byte(l.ml[0].local)), lib.Hex([]byte(l.ml[0].remote)), l.ml[0].tpt, l.ml[1].tpt, l.end[0].maxH, l.end[1].maxH))
 	}
 	for {
 		var tab []string
@@ -580,7 +653,7 @@ func (e *engine) queryHub(sc hubScen, ops []string) (line, ans string) {
 
 // check compares every link that is up with the model after the ops so far.
 func (r *hubRunner) check(branch string) bool {
-	line, ans := r.e.queryHub(r.sc, r.ops)
+	line, ans := r.e.queryHub(r.hw, r.render())
 	r.last = line
 	parts := strings.Split(ans, " | ")
 	r.kvs = nil
@@ -588,7 +661,7 @@ func (r *hubRunner) check(branch string) bool {
 	var want, got []string
 	for j, p := range parts {
 		r.kvs = append(r.kvs, kvmap(p))
-		if j < len(r.hw.links) && r.hw.links[j].up {
+		if j < len(r.hw.links) && r.hw.links[j].up && !r.hw.links[j].dead {
 			want = append(want, canon(p))
 			if r.kvs[j]["q"] != "1" {
 				r.q = false
@@ -598,7 +671,7 @@ func (r *hubRunner) check(branch string) bool {
 	obs := func() []string {
 		var g []string
 		for _, l := range r.hw.links {
-			if l.up {
+			if l.up && !l.dead {
 				g = append(g, r.hw.observeLink(l))
 			}
 		}
@@ -642,7 +715,15 @@ func (r *hubRunner) specOf(tok string) (n *hnode, pool []dirSpec, who string, j 
 		return r.hw.hub, r.sc.poolH, "H", -1
 	}
 	fmt.Sscanf(tok[2:], "%d", &j)
-	return r.hw.links[j].end[1], r.sc.poolS[j], fmt.Sprintf("S%d", j), j
+	n = r.hw.links[j].end[1]
+	root := j
+	for i, l := range r.hw.links {
+		if l.end[1] == n {
+			root = i
+			break
+		}
+	}
+	return n, r.sc.poolS[root], n.name, root
 }
 
 // linksOf: the links node n is an end of, with its side.
@@ -652,15 +733,15 @@ func (r *hubRunner) linksOf(n *hnode) (ls []*hlink, side int) {
 	}
 	for _, l := range r.hw.links {
 		if l.end[1] == n {
-			return []*hlink{l}, 1
+			ls = append(ls, l)
 		}
 	}
-	return nil, 1
+	return ls, 1
 }
 
 func (r *hubRunner) addDir(n *hnode, spec dirSpec, who string, j int, k int) {
 	ls, side := r.linksOf(n)
-	early := map[int]bool{}
+	early, late := map[int]bool{}, map[int]bool{}
 	for _, l := range ls {
 		sid := sessionDirect([]byte(l.ml[0].local), []byte(l.ml[0].remote))
 		h := hashDirect(sid, spec.pid, spec.ctx)
@@ -674,11 +755,26 @@ func (r *hubRunner) addDir(n *hnode, spec dirSpec, who string, j int, k int) {
 			}
 		}
 		early[l.j] = e
+		// late: a stream of this link for this hash was already resolved on this node
+		r.hw.mtx.Lock()
+		for s, sr := range l.streams {
+			if !bytes.Equal(sr.hash, h) {
+				continue
+			}
+			inFlight := false
+			for _, x := range l.arriving[side] {
+				inFlight = inFlight || x == s
+			}
+			if sr.opener == side || !inFlight {
+				late[l.j] = true
+			}
+		}
+		r.hw.mtx.Unlock()
 	}
 	n.mtx.Lock()
 	id := n.nextDir
 	n.nextDir++
-	ds := &hdir{id: id, spec: spec, early: early, n: n}
+	ds := &hdir{id: id, spec: spec, early: early, late: late, n: n}
 	n.dirs[id] = ds
 	n.mtx.Unlock()
 	di, ref, err := n.tb.Bus.AddDirective(link_solicit.NewSolicitProtocol(protocol.ID(spec.pid), spec.ctx, spec.peer, spec.tpt), ds)
@@ -689,16 +785,18 @@ func (r *hubRunner) addDir(n *hnode, spec dirSpec, who string, j int, k int) {
 	r.byPool[fmt.Sprintf("%s:%d", who, k)] = id
 	args := fmt.Sprintf("%s:%s:%s:%d", lib.Hex([]byte(spec.pid)), lib.Hex(spec.ctx), lib.Hex([]byte(spec.peer)), spec.tpt)
 	if j < 0 {
-		r.ops = append(r.ops, "aH:"+args)
+		r.op("aH:" + args)
 		for _, l := range ls {
-			if l.up {
-				r.ops = append(r.ops, fmt.Sprintf("L%d.sA", l.j))
+			if l.up && !l.dead {
+				r.op(fmt.Sprintf("L%d.sA", l.j))
 			}
 		}
 	} else {
-		r.ops = append(r.ops, fmt.Sprintf("L%d.aB:%s", j, args))
-		if ls[0].up {
-			r.ops = append(r.ops, fmt.Sprintf("L%d.sB", j))
+		r.ops = append(r.ops, hop{s: "aB:" + args, n: n})
+		for _, l := range ls {
+			if l.up && !l.dead {
+				r.op(fmt.Sprintf("L%d.sB", l.j))
+			}
 		}
 	}
 }
@@ -715,16 +813,18 @@ func (r *hubRunner) removeDir(n *hnode, who string, j int, k int) {
 	ds.di.Close()
 	ls, _ := r.linksOf(n)
 	if j < 0 {
-		r.ops = append(r.ops, fmt.Sprintf("rH:%d", id))
+		r.op(fmt.Sprintf("rH:%d", id))
 		for _, l := range ls {
-			if l.up {
-				r.ops = append(r.ops, fmt.Sprintf("L%d.sA", l.j))
+			if l.up && !l.dead {
+				r.op(fmt.Sprintf("L%d.sA", l.j))
 			}
 		}
 	} else {
-		r.ops = append(r.ops, fmt.Sprintf("L%d.rB:%d", j, id))
-		if ls[0].up {
-			r.ops = append(r.ops, fmt.Sprintf("L%d.sB", j))
+		r.ops = append(r.ops, hop{s: fmt.Sprintf("rB:%d", id), n: n})
+		for _, l := range ls {
+			if l.up && !l.dead {
+				r.op(fmt.Sprintf("L%d.sB", l.j))
+			}
 		}
 	}
 }
@@ -736,12 +836,137 @@ func (r *hubRunner) linkUp(j int) {
 		order = []int{1, 0}
 	}
 	for _, side := range order {
-		if err := l.end[side].addLinkValue(l.ml[side]); err != nil {
+		id, err := l.end[side].addLinkValue(l.ml[side])
+		if err != nil {
 			panic(err)
 		}
+		l.valID[side] = id
 	}
 	l.up = true
-	r.ops = append(r.ops, fmt.Sprintf("L%d.sA", j), fmt.Sprintf("L%d.sB", j))
+	r.op(fmt.Sprintf("L%d.sA", j))
+	r.op(fmt.Sprintf("L%d.sB", j))
+}
+
+// linkDown removes link j on both ends (the link value of the EstablishLinkWithPeer directive goes
+// away: removeLink). Direct clauses: both controllers drop the link state, both ends of the control
+// stream are closed, open requests of the link are withdrawn, a solicited stream still in flight
+// towards an end (or, if there is none, a probe stream for an offered hash) is refused — closed and
+// handed to nobody. The link takes no further step; when the slot comes up again it is a NEW link.
+func (r *hubRunner) linkDown(j int) bool {
+	hw, l := r.hw, r.hw.links[j]
+	order := []int{0, 1}
+	if r.e.rng.Intn(2) == 0 {
+		order = []int{1, 0}
+	}
+	before := [2]int{}
+	for side := 0; side < 2; side++ {
+		l.end[side].observeValues()
+		l.end[side].mtx.Lock()
+		before[side] = len(l.end[side].recv)
+		l.end[side].mtx.Unlock()
+	}
+	for _, side := range order {
+		rh := l.end[side].lc.handler(l.ml[side].remote)
+		if rh == nil {
+			panic("linkDown: no resolver handler")
+		}
+		rh.RemoveValue(l.valID[side])
+	}
+	l.dead = true
+	gone := waitUntil(func() bool {
+		for side := 0; side < 2; side++ {
+			if _, lo := l.end[side].snapshot(l.uuid); lo.found {
+				return false
+			}
+		}
+		return true
+	})
+	ctrlClosed := true
+	hw.mtx.Lock()
+	cp := l.ctrl
+	hw.mtx.Unlock()
+	if cp != nil {
+		ctrlClosed = waitUntil(func() bool { return cp.ends[0].isClosed() && cp.ends[1].isClosed() })
+	}
+	withdrawn := waitUntil(func() bool {
+		hw.mtx.Lock()
+		defer hw.mtx.Unlock()
+		return len(l.reqs) == 0
+	})
+	// streams in flight arrive now, on a link the controllers no longer track
+	refused := true
+	type probe struct {
+		side int
+		end  *pipeEnd
+		pid  protocol.ID
+	}
+	var probes []probe
+	hw.mtx.Lock()
+	for side := 0; side < 2; side++ {
+		for _, s := range l.arriving[side] {
+			probes = append(probes, probe{side, l.streams[s].p.ends[1], protocol.ID("solicit:" + hex.EncodeToString(l.streams[s].hash))})
+		}
+		l.arriving[side] = nil
+	}
+	hw.mtx.Unlock()
+	if len(probes) == 0 {
+		side := r.e.rng.Intn(2)
+		h := hashDirect(sessionDirect([]byte(l.ml[0].local), []byte(l.ml[0].remote)), "hub/any", []byte("c"))
+		if sent, _, _ := hw.wireLog(l, side); len(sent) > 0 && len(sent[len(sent)-1]) > 0 {
+			h = sent[len(sent)-1][0]
+		}
+		p := newPipe(false, -1)
+		p.link = l.j
+		probes = append(probes, probe{side, p.ends[1], protocol.ID("solicit:" + hex.EncodeToString(h))})
+	}
+	for _, pr := range probes {
+		hw.dispatch(l, pr.side, pr.pid, pr.end)
+		if !waitUntil(pr.end.isClosed) {
+			refused = false
+		}
+	}
+	for side := 0; side < 2; side++ {
+		l.end[side].observeValues()
+		l.end[side].mtx.Lock()
+		if len(l.end[side].recv) != before[side] {
+			refused = false
+		}
+		l.end[side].mtx.Unlock()
+	}
+	mon := ""
+	switch {
+	case !gone:
+		mon = fmt.Sprintf("link %d was removed on both ends but a controller still tracks it", l.j)
+	case !ctrlClosed:
+		mon = fmt.Sprintf("link %d was removed on both ends but its control stream was not closed at both ends", l.j)
+	case !withdrawn:
+		mon = fmt.Sprintf("link %d was removed but an OpenMountedStream call for it is still waiting", l.j)
+	case !refused:
+		mon = fmt.Sprintf("a solicited stream arriving on link %d after the link was removed was not refused (closed, handed to nobody)", l.j)
+	}
+	r.e.rep.Compare(fmt.Sprintf("%s linkdown link=%d %s", r.sc.label, l.j, r.last), "removed", map[bool]string{true: "removed", false: "not-removed"}[mon == ""], "hub.linkdown", "solicitsys.probe:linkremoved", mon)
+	return mon == ""
+}
+
+// reincarnate: the slot's link comes up again — same peers, same uuid (link uuids are derived from
+// the addresses), same transports: a NEW link of both nodes. Directives that exist are, for it,
+// "early" (nothing was ever offered on it) and not "late".
+func (r *hubRunner) reincarnate(slot int) int {
+	old := r.hw.links[r.cur[slot]]
+	l := r.hw.newLink(slot, old.uuid, old.end[1], old.ml[0].tpt, old.ml[1].tpt)
+	r.cur[slot] = l.j
+	for _, n := range l.end {
+		n.mtx.Lock()
+		for _, d := range n.dirs {
+			d.early[l.j] = true
+		}
+		for _, d := range n.gone {
+			d.early[l.j] = true
+		}
+		n.mtx.Unlock()
+	}
+	r.e.rep.Branches["hub.relink"]++
+	return l.j
 }
 
 func (r *hubRunner) deliver(j, side int) {
@@ -750,7 +975,7 @@ func (r *hubRunner) deliver(j, side int) {
 	p, ei := l.ctrl, l.endIdx(side)
 	r.hw.mtx.Unlock()
 	p.deliver(ei)
-	r.ops = append(r.ops, fmt.Sprintf("L%d.d%s", j, sideName(side)))
+	r.op(fmt.Sprintf("L%d.d%s", j, sideName(side)))
 }
 
 func (r *hubRunner) open(j, side int, hashHex string) {
@@ -776,7 +1001,7 @@ func (r *hubRunner) open(j, side int, hashHex string) {
 	l.arriving[1-side] = append(l.arriving[1-side], id)
 	hw.mtx.Unlock()
 	req.release <- &fakeMS{strm: p.ends[0], pid: req.pid, ml: req.ml, peer: req.ml.remote}
-	r.ops = append(r.ops, fmt.Sprintf("L%d.o%s:%s", j, sideName(side), hashHex))
+	r.op(fmt.Sprintf("L%d.o%s:%s", j, sideName(side), hashHex))
 }
 
 func (r *hubRunner) arrive(j, side, s int) {
@@ -796,14 +1021,14 @@ func (r *hubRunner) arrive(j, side, s int) {
 		l.viol = append(l.viol, "incoming solicited stream was not handled: "+res)
 		hw.mtx.Unlock()
 	}
-	r.ops = append(r.ops, fmt.Sprintf("L%d.v%s:%d", j, sideName(side), s))
+	r.op(fmt.Sprintf("L%d.v%s:%d", j, sideName(side), s))
 }
 
 // enabledNet: the network actions the MODEL state allows. Tokens: d<j>.<side> o<j>.<side>:<hash> v<j>.<side>:<s>
 func (r *hubRunner) enabledNet() []string {
 	var out []string
 	for j, l := range r.hw.links {
-		if !l.up || j >= len(r.kvs) {
+		if !l.up || l.dead || j >= len(r.kvs) {
 			continue
 		}
 		for i := 0; i < 2; i++ {
@@ -827,6 +1052,9 @@ func (r *hubRunner) realEnabled() []string {
 	hw := r.hw
 	var out []string
 	for j, l := range hw.links {
+		if l.dead {
+			continue
+		}
 		hw.mtx.Lock()
 		p := l.ctrl
 		for _, q := range l.reqs {
@@ -879,7 +1107,7 @@ func (r *hubRunner) settleReal() {
 		time.Sleep(300 * time.Microsecond)
 		var sb strings.Builder
 		for _, l := range r.hw.links {
-			if l.up {
+			if l.up && !l.dead {
 				sb.WriteString(r.hw.observeLink(l))
 			}
 		}
@@ -917,14 +1145,31 @@ func (r *hubRunner) do(tok string) bool {
 		r.monitors()
 		return true
 	case strings.HasPrefix(tok, "up"):
-		var j int
-		fmt.Sscanf(tok[2:], "%d", &j)
-		if r.hw.links[j].up {
+		var slot int
+		fmt.Sscanf(tok[2:], "%d", &slot)
+		j := r.cur[slot]
+		if r.hw.links[j].up && !r.hw.links[j].dead {
 			return true
+		}
+		if r.hw.links[j].dead {
+			j = r.reincarnate(slot)
 		}
 		r.linkUp(j)
 		r.e.rep.Branches["hub.linkup"]++
 		return r.check("linkup")
+	case strings.HasPrefix(tok, "down"):
+		var slot int
+		fmt.Sscanf(tok[4:], "%d", &slot)
+		j := r.cur[slot]
+		if !r.hw.links[j].up || r.hw.links[j].dead {
+			return true
+		}
+		if !r.linkDown(j) {
+			r.failed = true
+			return false
+		}
+		// the other links (and nothing else) are as before
+		return r.check("linkdown")
 	case tok[0] == 'a' || tok[0] == 'r':
 		n, pool, who, j := r.specOf(tok)
 		var k int
@@ -1193,6 +1438,16 @@ func (r *hubRunner) findings(atRest bool) []finding {
 				}
 			}
 		}
+		if l.dead {
+			// a removed link: nothing may happen on it any more
+			hw.mtx.Lock()
+			nreq := len(l.reqs)
+			hw.mtx.Unlock()
+			if nreq > 0 {
+				out = append(out, finding{fmt.Sprintf("%s: an OpenMountedStream call was made on the link after it was removed", name), "solicitsys.hub:dead-link-activity"})
+			}
+			continue
+		}
 		if !atRest {
 			continue
 		}
@@ -1294,10 +1549,10 @@ func (r *hubRunner) findings(atRest bool) []finding {
 					continue
 				}
 				what := fmt.Sprintf("%s: solicitations %v of the hub and %v of the spoke name the same protocol and context and their constraints admit the link, yet at quiescence no stream connects them", name, da.spec, db.spec)
-				if da.early[l.j] && db.early[l.j] {
+				if !da.late[l.j] && !db.late[l.j] {
 					out = append(out, finding{what, "solicitsys.match:missed"})
 				} else {
-					out = append(out, finding{what + " (a stream for this hash was opened earlier on the link; the hash stays in ls.matched)", "solicitsys.match:late-solicitation"})
+					out = append(out, finding{what + " (the one stream of this hash had been resolved on the link before the later of the two was added; the hash stays in ls.matched)", "solicitsys.match:late-solicitation"})
 				}
 			}
 		}
@@ -1310,7 +1565,7 @@ func (r *hubRunner) findings(atRest bool) []finding {
 func (r *hubRunner) endsCheck() []finding {
 	var out []finding
 	for _, l := range r.hw.links {
-		if !l.up {
+		if !l.up || l.dead {
 			continue
 		}
 		var have [2]map[int]bool
@@ -1374,6 +1629,15 @@ func (e *engine) runHub(sc hubScen) {
 	}
 	defer hw.close()
 	r := &hubRunner{e: e, hw: hw, sc: sc, byPool: map[string]int{}, hits: map[string]bool{}, ends: map[[2]int]bool{}}
+	for j := range sc.spokes {
+		r.cur = append(r.cur, j)
+	}
+	for j := range sc.spokes {
+		if j < len(sc.share) && sc.share[j] >= 0 && sc.share[j] < j {
+			e.rep.Branches["hub.parallel-links"]++
+			break
+		}
+	}
 	e.rep.Branches["hub.scenario"]++
 	same := true
 	for _, t := range sc.tptH {
@@ -1405,6 +1669,9 @@ func (e *engine) runHub(sc hubScen) {
 				tok = en[e.rng.Intn(len(en))]
 			case x < 65:
 				tok = fmt.Sprintf("up%d", e.rng.Intn(len(sc.spokes)))
+				if sc.downs && x < 59 {
+					tok = fmt.Sprintf("down%d", e.rng.Intn(len(sc.spokes)))
+				}
 			case x < 85:
 				k := e.rng.Intn(len(sc.poolH))
 				if _, ok := r.byPool[fmt.Sprintf("H:%d", k)]; ok {
@@ -1417,7 +1684,8 @@ func (e *engine) runHub(sc hubScen) {
 			default:
 				j := e.rng.Intn(len(sc.spokes))
 				k := e.rng.Intn(len(sc.poolS[j]))
-				if _, ok := r.byPool[fmt.Sprintf("S%d:%d", j, k)]; ok {
+				_, _, who, _ := r.specOf(fmt.Sprintf("aS%d:0", j))
+				if _, ok := r.byPool[fmt.Sprintf("%s:%d", who, k)]; ok {
 					if e.rng.Intn(100) < 40 {
 						tok = fmt.Sprintf("rS%d:%d", j, k)
 					}
@@ -1464,8 +1732,15 @@ func hubPools(sc *hubScen) {
 		{"hub/p3", []byte("x"), "nobody-peer", 0},
 		{"hub/dex", []byte("b2"), sc.spokes[0], sc.tptH[0]},
 		{"hub/p4", nil, sc.spokes[len(sc.spokes)-1], sc.tptH[0]},
+		// both halves of a separator-ambiguous pair on the hub; each spoke solicits one half
+		{"hub/am", []byte("big"), "", 0},
+		{"hub/ambig", nil, "", 0},
 	}
-	for range sc.spokes {
+	for j := range sc.spokes {
+		amb := dirSpec{"hub/am", []byte("big"), "", 0}
+		if j%2 == 1 {
+			amb = dirSpec{"hub/ambig", nil, "", 0}
+		}
 		sc.poolS = append(sc.poolS, []dirSpec{
 			{"hub/any", []byte("c"), "", 0},
 			{"hub/dex", []byte("b1"), "", 0},
@@ -1473,6 +1748,9 @@ func hubPools(sc *hubScen) {
 			{"hub/p3", []byte("x"), "", 0},
 			{"hub/dex", []byte("b2"), "", 0},
 			{"hub/p4", nil, "", 0},
+			amb,
+			// admitted only on the link the spoke mounted on ITS last transport (parallel links: one of them)
+			{"hub/any", []byte("c"), "", sc.tptS[len(sc.tptS)-1]},
 		})
 	}
 }
@@ -1505,6 +1783,23 @@ func (e *engine) hubScenarios(n int) []hubScen {
 	// transport-constrained solicitations must be offered on their own transport's link only
 	out = append(out, mk("hub-same-peer-two-transports", "hub-h", []peer.ID{x, x}, []uint64{7, 8},
 		[]string{"up0", "aH:2", "aH:6", "aS0:1", "aS1:1", "aS0:4", "aS1:4", "q", "up1", "q", "aH:0", "aS0:0", "aS1:0", "q"}))
+	// PARALLEL links: two links between the hub and ONE spoke node (one controller at each end, both
+	// directive sets shared by both links, one session id), over different transports: every pair is
+	// connected once per link; a transport-constrained solicitation (of the hub, of the spoke) only on
+	// the link over that transport
+	par := mk("hub-parallel-links", "hub-h", []peer.ID{x, x}, []uint64{7, 8},
+		[]string{"up0", "aH:0", "aS0:0", "q", "up1", "q", "aH:2", "aS0:1", "q", "aS0:7", "q", "rH:0", "aH:4", "aS0:2", "q"})
+	par.share = []int{-1, 0}
+	out = append(out, par)
+	// a link is REMOVED on both ends and RE-ESTABLISHED (same uuid): the solicitations both nodes
+	// still hold are matched again on the new link; the other link is not disturbed
+	out = append(out, mk("hub-link-removed-and-reestablished", "hub-h", []peer.ID{x, y}, []uint64{7, 7},
+		[]string{"up0", "up1", "aH:0", "aS0:0", "aS1:0", "q", "down0", "q", "aH:4", "aS0:2", "up0", "q", "aS0:1", "aH:1", "q", "down1", "down0", "up1", "up0", "q"}))
+	// the same with a stream still in flight / an open still pending when the link goes away, on parallel links
+	par2 := mk("hub-parallel-link-removed", "zz-hub", []peer.ID{x, x}, []uint64{7, 8},
+		[]string{"up0", "up1", "aH:0", "aS0:0", "down1", "q", "aH:4", "aS0:2", "down0", "up1", "q", "up0", "q"})
+	par2.share = []int{-1, 0}
+	out = append(out, par2)
 	for k := 0; k < n; k++ {
 		ns := 2 + e.rng.Intn(2)
 		spokes := []peer.ID{x, y, z}[:ns]
@@ -1535,6 +1830,14 @@ func (e *engine) hubScenarios(n int) []hubScen {
 		}
 		sc := mk(fmt.Sprintf("hub%d", k), hubPeer, spokes, tptH, nil)
 		sc.steps = 22 + e.rng.Intn(14)
+		if k%6 == 5 && k%4 == 1 {
+			sc.share = make([]int, ns)
+			for j := range sc.share {
+				sc.share[j] = -1
+			}
+			sc.share[ns-1] = 0 // the two links to the same peer end at ONE node: parallel links
+		}
+		sc.downs = k%3 == 2
 		if k%5 == 4 {
 			sc.maxHub = 2
 		}
